@@ -33,6 +33,7 @@ type Plan struct {
 	LimitMs  int64             `json:"limit_ms,omitempty"`
 	MaxSteps int               `json:"max_steps,omitempty"`
 	Variant  string            `json:"variant,omitempty"` // dual-run properties: "A" / "B"
+	Soak     bool              `json:"soak,omitempty"`    // long run: the scheduler keeps no per-step records
 }
 
 // Violation is one oracle failure.
@@ -258,7 +259,10 @@ func execute(t *testing.T, p *Plan, trace bool, out *Outcome) {
 		if limit == 0 {
 			limit = 10 * time.Minute
 		}
-		s := simrt.New(simrt.Config{Seed: p.Seed, Tape: p.Tape, Strategy: p.Strategy, Trace: trace, Limit: limit, MaxSteps: p.MaxSteps, PoolDrop: p.PoolDrop})
+		if p.Soak {
+			trace = false // soak runs measure the heap: no per-step records
+		}
+		s := simrt.New(simrt.Config{Seed: p.Seed, Tape: p.Tape, Strategy: p.Strategy, Trace: trace, Limit: limit, MaxSteps: p.MaxSteps, PoolDrop: p.PoolDrop, NoRecord: p.Soak})
 		simrt.S = s
 		e := &Env{S: s, Plan: p, out: out, rootStats: localStats{faults: map[string]int{}, probes: map[string]int{}}}
 		s.GoApp("main", func() { prop.Run(e) }, e.addApp)
